@@ -378,10 +378,20 @@ def gen_generator():
     out.append(f"def checksumArgs : Nat × Nat := ({ck[0]}, {ck[1]})\n")
     # shift: (b0, b1, b2, b3) = (b1, b2, b3, b4)
     try:
-        i = find_seq(tg, ["(", "b0", ",", "b1", ",", "b2", ",", "b3", ")", "=", "("])
-        e = match_close(tg, i + 10)
         regs = {"b0": 0, "b1": 1, "b2": 2, "b3": 3, "b4": 4}
-        sh = [regs[a[0].text] for a in split_top(tg[i + 11:e])]
+        i = find_seq(tg, ["(", "b0", ",", "b1", ",", "b2", ",", "b3", ")", "=", "("])
+        if i >= 0:
+            e = match_close(tg, i + 10)
+            sh = [regs[a[0].text] for a in split_top(tg[i + 11:e])]
+        else:
+            # the same shift written as consecutive single assignments `bX = bY;` (evaluated in order)
+            k = find_seq(tg, ["b0", "=", "b1", ";"])
+            assert k >= 0, "no tuple shift and no `b0 = b1;`"
+            val = dict(regs)
+            while tg[k].text in regs and tg[k + 1].text == "=" and tg[k + 2].text in regs and tg[k + 3].text == ";":
+                val[tg[k].text] = val[tg[k + 2].text]
+                k += 4
+            sh = [val[r] for r in ("b0", "b1", "b2", "b3")]
     except Exception as e:
         fail("register shift", str(e))
         sh = []
@@ -457,11 +467,20 @@ def gen_generator():
     # Q ratio expression constants: `q1 as u64 * 100) / q3 as u64) % 16`, `wrapping_mul(100)`
     try:
         i = find_seq(tg, ["q1", "as", "u64", "*"])
-        mul_i = parse_int(tg[i + 4].text)
-        j = find_seq(tg, ["q3", "as", "u64", ")", "%"], i)
-        mod_i = parse_int(tg[j + 5].text)
-        i2 = find_seq(tg, ["q1", ".", "wrapping_mul", "("])
-        mul_f = parse_int(tg[i2 + 4].text)
+        if i >= 0:
+            mul_i = parse_int(tg[i + 4].text)
+            j = find_seq(tg, ["q3", "as", "u64", ")", "%"], i)
+            mod_i = parse_int(tg[j + 5].text)
+        else:
+            # `u64::from(<q>) * N / u64::from(q3)) % M` (the quotient taken in a helper / closure over one quartile)
+            i = find_seq(tg, ["u64", "::", "from", "("])
+            assert i >= 0 and tg[i + 5].text == ")" and tg[i + 6].text == "*", "no u64 Q-ratio product"
+            mul_i = parse_int(tg[i + 7].text)
+            j = find_seq(tg, ["(", "q3", ")", ")", "%"], i)
+            mod_i = parse_int(tg[j + 5].text)
+        i2 = find_seq(tg, [".", "wrapping_mul", "("])
+        assert i2 >= 0 and tg[i2 - 1].text in ("q", "q1", "q2"), "no wrapping_mul on a quartile"
+        mul_f = parse_int(tg[i2 + 3].text)
         j2 = find_seq(tg, ["as", "u32", "%"], i2)
         mod_f = parse_int(tg[j2 + 3].text)
         qr = (mul_i, mod_i, mul_f, mod_f)
@@ -480,6 +499,26 @@ def gen_generator():
             recv = tg[i - 2].text
             sel.append((recv, a, b))
         assert len(sel) == 3, f"expected three select_nth_unstable(SIZE_BUCKETS / a - b) calls, found {len(sel)}"
+        # canonical receiver names, by data flow rather than by spelling: the first call's result is bound by
+        # `let (LOWER, <nth>, UPPER) = WHOLE.select_nth_unstable(..)`; the other two receivers are LOWER / UPPER.
+        # Emitted as copy_buckets / l0 / l1 in that order (the order of the two later calls is immaterial:
+        # they work on disjoint sub-slices).
+        try:
+            i0 = find_all_seq(tg, ["select_nth_unstable", "(", "SIZE_BUCKETS", "/"])[0]
+            k = i0
+            while tg[k].text != "let":
+                k -= 1
+            assert tg[k + 1].text == "("
+            pe = match_close(tg, k + 1)
+            assert tg[pe + 1].text == "="
+            parts = split_top(tg[k + 2:pe])
+            assert len(parts) == 3
+            role = {sel[0][0]: "copy_buckets", parts[0][-1].text: "l0", parts[2][-1].text: "l1"}
+            canon = [(role[r], a, b) for r, a, b in sel]
+            assert sorted(x[0] for x in canon) == ["copy_buckets", "l0", "l1"] and canon[0][0] == "copy_buckets"
+            sel = sorted(canon)
+        except Exception:
+            pass    # keep the spelled names; `tables` then decides
     except Exception as e:
         fail("select_nth_unstable args", str(e))
         sel = []
@@ -534,6 +573,8 @@ def gen_generator():
     # OneByteChecksumChecker<NUM_BUCKETS_SHORT>::is_valid: `checksum <= NUM_BUCKETS_SHORT as u8`
     try:
         i = find_seq(tc, ["checksum", "<=", "NUM_BUCKETS_SHORT", "as", "u8"])
+        if i < 0:   # the same comparison carried out in usize
+            i = find_seq(tc, ["usize", "::", "from", "(", "checksum", ")", "<=", "NUM_BUCKETS_SHORT"])
         assert i > 0
         # make sure it's inside impl for OneByteChecksumChecker<NUM_BUCKETS_SHORT>
         k = find_seq(tc, ["for", "OneByteChecksumChecker", "<", "NUM_BUCKETS_SHORT", ">", "{"])
